@@ -645,6 +645,12 @@ func (g *c20Gen) source(dirComps []string, scanned bool, skipCat string, maxAnno
 		} else {
 			item = g.lookalike()
 		}
+		if g.r.Chance(1, 25) {
+			// generated code: a line directive that names a file somewhere else (positions reported for what
+			// follows change, the package the function belongs to does not)
+			out = append(out, []string{"//line ../grammar/expr.y:40", "//line /usr/src/gen/tmpl.go:1", "//line zz/other.go:7:3"}[g.r.Intn(3)], "")
+			g.catSeen["line-directive"]++
+		}
 		out = append(out, item...)
 		if g.r.Chance(4, 5) {
 			// declarations may follow each other without a blank line; no item ends
